@@ -90,6 +90,11 @@ def collect_pairs_power(ps, conds: Conditions):
         else:
             raise NotImplementedError
 
+    # powers that could not be added to the first ones are collected among themselves:
+    # x * x^-1 * x * x^-1 becomes x^2 * x^-2, the same as x^2 * x^-2 does
+    if len(res_list) > 1:
+        res_list = list(collect_pairs_power(res_list, conds))
+
     for k, v in res.items():
         if v != zero_for(v):
             res_list.append((k, v))
